@@ -10,5 +10,6 @@ CONSTANTS
   Strict = FALSE
   Mut = "none"
   Driver = "iour"
-SPECIFICATION Spec
+SPECIFICATION FairSpec
 INVARIANTS TypeOK NoErr NoSteal CoveredModuloKnown CoveredStrict SlotSane BackedOK
+PROPERTIES WokenModuloKnown ServedModuloKnown WokenStrict
